@@ -585,7 +585,8 @@ int main(int argc, char **argv)
             int err = do_map(handles[h], p, ho, vo, hs, vs, mode[0] == 'w',
                              &ptr);
             if (!ubase_check(err)) {
-                printf("%s\n", errname(err));
+                /* leak=1: the refused call nevertheless wrote an address into the caller's pointer */
+                printf("%s leak=%d\n", errname(err), ptr != NULL);
                 continue;
             }
             struct pgeo g;
